@@ -1,9 +1,9 @@
 From Coq Require Import Extraction ExtrOcamlBasic.
-From FluteV Require Import Model.Bytes Model.AlcTypes Model.Lct Model.Ntp Model.Alc Spec.C06Spec.
+From FluteV Require Import Model.Bytes Model.AlcTypes Model.Lct Model.Ntp Model.Alc Model.AlcFixed Spec.C06Spec.
 Extraction Language OCaml.
 Extraction "../ocaml/gen/c06_model.ml"
   push_lct_header parse_lct_header get_ext get_ext_unfixed new_alc_pkt parse_alc_pkt get_sender_current_time
-  parse_payload_id observe_parse system_time_to_ntp system_time_to_ntp_unfixed ntp_to_system_time
+  parse_payload_id observe_parse observe_parse_fixed system_time_to_ntp system_time_to_ntp_unfixed ntp_to_system_time
   rfc5651_encode rfc5651_decode rfc_alc_encode rfc_alc_decode mk_rfc_pkt x_fdt x_cenc x_time x_fti pid_fields
   wf_pkt parse_demand build_in_range known_d32_build known_d32_parse
   P_C06_build P_C06_parse P_C06_lct P_C06_ntp.
